@@ -9,13 +9,21 @@ matrix, constructor arguments), a field-by-field structural comparison that
 does not use the objects' `__eq__` (vf.refmodel.structdiff), the JSON text
 itself (second-generation text identical, VAL before REF), and the paired
 `.repr` file for every stored document.
+
+Mechanism keys ('explained-by'): every failed observation is explained by the
+set of stored fields that differ between the value and its copy.  The known
+defects D5 / D8 / D9 get their fixed keys only when *all* differences are the
+fields of that defect; a single other lost field gets
+"C11:<Class>-<field>-not-serialized" (JSON) / "...-lost-by-repr" (repr);
+everything else "C11:<check>:<innermost class at fault>".  Proposed
+known_findings.json entries for what fires on the unchanged tree are in
+vf/workloads/c11_known_findings_proposed.json.
 """
 from __future__ import annotations
 
 import copy
 import enum
 import glob
-import gzip  # noqa: F401  (documented dependency of the gzip round trip)
 import hashlib
 import importlib
 import itertools
@@ -1415,11 +1423,11 @@ def sec_pickle_child(ctx, rng, case):
 
 SECTIONS = [
     ("corpus", sec_corpus, len(FILES), len(FILES), 1.6),
-    ("generated", sec_generated, 15000, 240000, 4.0),
-    ("mutants", sec_mutants, 5000, 80000, 2.0),
-    ("composed", sec_composed, 2400, 36000, 1.2),
-    ("eqhash", sec_eqhash, 2000, 30000, 1.2),
-    ("qidorder", sec_qidorder, 4000, 60000, 0.5),
-    ("copies", sec_copies, 4000, 60000, 1.0),
-    ("pickle_child", sec_pickle_child, 14, 64, 1.5),
+    ("generated", sec_generated, 15000, 1600000, 4.0),
+    ("mutants", sec_mutants, 5000, 320000, 2.0),
+    ("composed", sec_composed, 2400, 150000, 1.2),
+    ("eqhash", sec_eqhash, 2000, 120000, 1.2),
+    ("qidorder", sec_qidorder, 4000, 400000, 0.5),
+    ("copies", sec_copies, 4000, 600000, 1.0),
+    ("pickle_child", sec_pickle_child, 14, 48, 1.5),
 ]
